@@ -361,7 +361,8 @@ define_function(data_md5)
       return_string(YR_UNDEFINED);
     }
 
-    if (block->base + block->size >= offset + length)
+    if (past_first_block &&
+        block->base + block->size >= (uint64_t) offset + (uint64_t) length)
       break;
   }
 
@@ -490,7 +491,8 @@ define_function(data_sha1)
       return_string(YR_UNDEFINED);
     }
 
-    if (block->base + block->size >= offset + length)
+    if (past_first_block &&
+        block->base + block->size >= (uint64_t) offset + (uint64_t) length)
       break;
   }
 
@@ -618,7 +620,8 @@ define_function(data_sha256)
       return_string(YR_UNDEFINED);
     }
 
-    if (block->base + block->size >= offset + length)
+    if (past_first_block &&
+        block->base + block->size >= (uint64_t) offset + (uint64_t) length)
       break;
   }
 
@@ -703,7 +706,8 @@ define_function(data_checksum32)
       return_integer(YR_UNDEFINED);
     }
 
-    if (block->base + block->size >= offset + length)
+    if (past_first_block &&
+        block->base + block->size >= (uint64_t) offset + (uint64_t) length)
       break;
   }
 
@@ -796,7 +800,8 @@ define_function(data_crc32)
       return_integer(YR_UNDEFINED);
     }
 
-    if (block->base + block->size >= offset + length)
+    if (past_first_block &&
+        block->base + block->size >= (uint64_t) offset + (uint64_t) length)
       break;
   }
 
